@@ -13,8 +13,17 @@
    field, a chunk body or compressed image data straddling the cut), (3) runs of transitions (micro_cut), (4) lists of pieces, (5) the fuelled
    loops of update / feed, which (6) never run out of fuel (C04_driver_never_runs_dry: every transition lowers 5*|buffer| + rank).
    STILL PARTIAL with respect to the property's other half: the Reader on top of a BufRead (rows, frames) is not part of this theorem; it is
-   decided on every run by the metamorphic check (whole vs byte-by-byte vs every single cut point vs random schedules) and has one known finding. *)
-From PngV Require Import Base.Bytes Base.Crc Gen.GenStream Model.Stream Model.StreamRun Proofs.StreamProofs Proofs.StreamSplit Proofs.StreamWhole Base.Inflate Base.Utf8 Model.StreamExec Proofs.InflatePrefix.
+   decided on every run by the metamorphic check (whole vs byte-by-byte vs every single cut point vs random schedules) and has one known finding.
+   ROWS (Proofs/ReaderRows.v, Proofs/ReaderRowsStream.v): a row-level run of the Reader is any list of actions on the unfiltering buffer - the inflater
+   appends a portion (with compaction), a pass starts (reset of the previous row), a row of rl bytes is requested.  The buffer run equals the abstract run
+   (C04_buffer_run_is_abstract_run); every run gives what the run with ALL data supplied first gives, except that a run stopped for lack of data has delivered
+   a prefix of those rows (C04_all_data_first); hence two runs with the same requests over the same total data deliver the same rows and outcome, or - when one
+   stopped for lack of data - one row list is a prefix of the other (C04_rows_are_delivery_independent: exactly the clause "only the amount of partial row
+   data handed out before a failure may depend on the delivery").  COMPOSED with the stream machine: for any two ways of cutting the input, the image bytes of
+   the first frame are the same, so any two Reader runs over them (any re-portioning, any interleaving with the same requests) deliver the same rows
+   (C04_frame_rows_are_delivery_independent; no premise for the executable model: C04_executable_model_frame_rows_are_delivery_independent).  The abstract
+   run with all data first IS the pipeline's row loop whose rows C01 proves equal to the specification (C04_all_data_run_is_the_pipeline). *)
+From PngV Require Import Base.Bytes Base.Crc Gen.GenStream Model.Stream Model.StreamRun Proofs.StreamProofs Proofs.StreamSplit Proofs.StreamWhole Base.Inflate Base.Utf8 Model.StreamExec Proofs.InflatePrefix Gen.GenPaeth Model.Filter Model.Pipeline Model.UnfiltBuf Proofs.UnfiltBufProofs Proofs.ReaderRows Proofs.ReaderRowsStream.
 From RecordUpdate Require Import RecordSet.
 Import RecordSetNotations.
 
@@ -257,6 +266,110 @@ Theorem C04_monotonicity_premise_satisfiable :
   zinf_monotone (fun (_ : bool) (a : list Z) => (a, DNeedMore)).
 Proof. exact zinf_monotone_satisfiable. Qed.
 
+(* rows of the first frame over the executable stream model: any two cuts of the input, any portions, any interleaving with the same row requests *)
+Theorem C04_executable_model_frame_rows_are_delivery_independent :
+  forall (o : options) (limit : Z) (ps1 ps2 : list (list Z)),
+       Forall bytes_ok ps1 ->
+       Forall bytes_ok ps2 ->
+       concat ps1 = concat ps2 ->
+       forall q1 q2 : list (list Z),
+       upto_flush (trace_of (feed zinf_ref inflate_checked utf8_valid (init_state o limit) ps1)) = (q1, true) ->
+       upto_flush (trace_of (feed zinf_ref inflate_checked utf8_valid (init_state o limit) ps2)) = (q2, true) ->
+       forall (P : Z -> Z -> Z -> Z) (bpp : nat) (a1 a2 : list ract) (rows1 : list (list Z))
+         (e1 : option perr) (rows2 : list (list Z)) (e2 : option perr),
+       appended a1 = concat q1 ->
+       appended a2 = concat q2 ->
+       requests a1 = requests a2 ->
+       arun P bpp [] [] a1 = (rows1, e1) ->
+       arun P bpp [] [] a2 = (rows2, e2) ->
+       (e1 <> Some PTooShort -> e2 <> Some PTooShort -> rows1 = rows2 /\ e1 = e2) /\
+       (is_prefix rows1 rows2 \/ is_prefix rows2 rows1).
+Proof. exact executable_model_frame_rows_are_delivery_independent. Qed.
+
+(* the same over any inflater meeting the contract *)
+Theorem C04_frame_rows_are_delivery_independent :
+  forall (zinf : bool -> list Z -> list Z * dstatus) (zall : list Z -> option (list Z))
+         (utf8_valid : list Z -> bool),
+       zinf_contract zinf ->
+       forall (o : options) (limit : Z) (ps1 ps2 : list (list Z)),
+       Forall bytes_ok ps1 ->
+       Forall bytes_ok ps2 ->
+       concat ps1 = concat ps2 ->
+       forall q1 q2 : list (list Z),
+       upto_flush (trace_of (feed zinf zall utf8_valid (init_state o limit) ps1)) = (q1, true) ->
+       upto_flush (trace_of (feed zinf zall utf8_valid (init_state o limit) ps2)) = (q2, true) ->
+       forall (P : Z -> Z -> Z -> Z) (bpp : nat) (a1 a2 : list ract) (rows1 : list (list Z))
+         (e1 : option perr) (rows2 : list (list Z)) (e2 : option perr),
+       appended a1 = concat q1 ->
+       appended a2 = concat q2 ->
+       requests a1 = requests a2 ->
+       arun P bpp [] [] a1 = (rows1, e1) ->
+       arun P bpp [] [] a2 = (rows2, e2) ->
+       (e1 <> Some PTooShort -> e2 <> Some PTooShort -> rows1 = rows2 /\ e1 = e2) /\
+       (is_prefix rows1 rows2 \/ is_prefix rows2 rows1).
+Proof. exact frame_rows_are_delivery_independent. Qed.
+
+(* row-level runs: same requests over the same total data *)
+Theorem C04_rows_are_delivery_independent :
+  forall (P : Z -> Z -> Z -> Z) (bpp : nat) (prev pending : list Z) (a1 a2 : list ract)
+         (rows1 : list (list Z)) (e1 : option perr) (rows2 : list (list Z)) (e2 : option perr),
+       requests a1 = requests a2 ->
+       appended a1 = appended a2 ->
+       arun P bpp prev pending a1 = (rows1, e1) ->
+       arun P bpp prev pending a2 = (rows2, e2) ->
+       (e1 <> Some PTooShort -> e2 <> Some PTooShort -> rows1 = rows2 /\ e1 = e2) /\
+       (is_prefix rows1 rows2 \/ is_prefix rows2 rows1).
+Proof. exact rows_are_delivery_independent. Qed.
+
+(* the same for the unfiltering buffer itself (cursors, compaction) *)
+Theorem C04_buffer_rows_are_delivery_independent :
+  forall (P : Z -> Z -> Z -> Z) (bpp : nat),
+       (forall (f : Z) (prev cur : list Z), length (unfilter_model P f bpp prev cur) = length cur) ->
+       forall a1 a2 : list ract,
+       requests a1 = requests a2 ->
+       appended a1 = appended a2 ->
+       (snd (run P bpp ub_new a1) <> Some PTooShort ->
+        snd (run P bpp ub_new a2) <> Some PTooShort -> run P bpp ub_new a1 = run P bpp ub_new a2) /\
+       (is_prefix (fst (run P bpp ub_new a1)) (fst (run P bpp ub_new a2)) \/
+        is_prefix (fst (run P bpp ub_new a2)) (fst (run P bpp ub_new a1))).
+Proof. exact buffer_rows_are_delivery_independent. Qed.
+
+(* unfiltering_buffer.rs run = abstract run over (previous row, pending bytes) *)
+Theorem C04_buffer_run_is_abstract_run :
+  forall (P : Z -> Z -> Z -> Z) (bpp : nat),
+       (forall (f : Z) (prev cur : list Z), length (unfilter_model P f bpp prev cur) = length cur) ->
+       forall (acts : list ract) (u : ubuf) (prev pending : list Z),
+       UInv u prev pending -> run P bpp u acts = arun P bpp prev pending acts.
+Proof. exact run_refines. Qed.
+
+(* a run vs the run with all the data supplied before the first request *)
+Theorem C04_all_data_first :
+  forall (P : Z -> Z -> Z -> Z) (bpp : nat) (acts : list ract) (prev pending : list Z)
+         (rows : list (list Z)) (e : option perr),
+       arun P bpp prev pending acts = (rows, e) ->
+       exists (rows' : list (list Z)) (e' : option perr),
+         arun P bpp prev (pending ++ appended acts) (requests acts) = (rows', e') /\
+         (e <> Some PTooShort -> rows' = rows /\ e' = e) /\ is_prefix rows rows'.
+Proof. exact arun_all_data_first. Qed.
+
+(* n requests with all data present = Model/Pipeline.v unfilter_rows (C01) *)
+Theorem C04_all_data_run_is_the_pipeline :
+  forall (P : Z -> Z -> Z -> Z) (bpp rl n : nat) (prev stream : list Z),
+       arun P bpp prev stream (repeat (RRow rl) n) =
+       match unfilter_rows P bpp rl n prev stream with
+       | Ok (rows, _) => (rows, None)
+       | Err e => (fst (arun P bpp prev stream (repeat (RRow rl) n)), Some e)
+       | Panic _ => arun P bpp prev stream (repeat (RRow rl) n)
+       end.
+Proof. exact arun_rows_are_pipeline_rows. Qed.
+
+(* equal observations of the stream machine carry equal image bytes for the first frame *)
+Theorem C04_same_observation_same_frame_bytes :
+  forall (tr1 tr2 : list (event * list Z)) (q1 q2 : list (list Z)),
+       obs_go [] tr1 = obs_go [] tr2 ->
+       upto_flush tr1 = (q1, true) -> upto_flush tr2 = (q2, true) -> concat q1 = concat q2.
+Proof. exact same_observation_same_frame_bytes. Qed.
+
 (* non-vacuity: the initial state is at a field boundary *)
 Example C04_nonvacuous : st (init_state (mk_opts true false false false true) 1000) = Some (SU32 KSig1 []).
 Proof. reflexivity. Qed.
@@ -282,6 +395,14 @@ Example C04_demo_observation_is_not_trivial :
   [OE (EChunkBegin 13 ct_IHDR); OE (EHeader 1 1 8 0 false); OE (EChunkComplete (be32 58 126 155 85) ct_IHDR);
    OE (EChunkBegin 3 ct_IDAT); OE (EChunkComplete 0 ct_IDAT); OF [7; 9]; OE (EChunkBegin 0 ct_IEND); OE EImageEnd].
 Proof. vm_compute. reflexivity. Qed.
+(* non-vacuity of the row-level statements: byte-by-byte vs all-at-once delivery of a 2-row stream, and a stream one byte short *)
+Example C04_rows_demo :
+  let P := fun a b c : Z => 0 in
+  run P 1 ub_new [RAppend [0]; RAppend [5; 6]; RRow 2; RAppend [1; 1]; RAppend [1]; RRow 2] = ([[5; 6]; [1; 2]], None) /\
+  run P 1 ub_new [RAppend [0; 5; 6; 1; 1; 1]; RRow 2; RRow 2] = ([[5; 6]; [1; 2]], None) /\
+  run P 1 ub_new [RAppend [0; 5; 6; 1]; RRow 2; RRow 2] = ([[5; 6]], Some PTooShort).
+Proof. exact rows_demo. Qed.
+
 Print Assumptions C04_executable_model_is_delivery_independent.
 Print Assumptions C04_decoding_is_delivery_independent.
 Print Assumptions C04_reference_inflater_meets_the_contract.
@@ -302,3 +423,11 @@ Print Assumptions C04_zero_byte_steps_ignore_buffer.
 Print Assumptions C04_image_data_cut.
 Print Assumptions C04_inflater_wrapper_cut.
 Print Assumptions C04_monotonicity_premise_satisfiable.
+Print Assumptions C04_executable_model_frame_rows_are_delivery_independent.
+Print Assumptions C04_frame_rows_are_delivery_independent.
+Print Assumptions C04_rows_are_delivery_independent.
+Print Assumptions C04_buffer_rows_are_delivery_independent.
+Print Assumptions C04_buffer_run_is_abstract_run.
+Print Assumptions C04_all_data_first.
+Print Assumptions C04_all_data_run_is_the_pipeline.
+Print Assumptions C04_same_observation_same_frame_bytes.
